@@ -320,6 +320,9 @@ def check_C11(ctx, rep):
     P = ctx.prog.func
     models.check_tm_step(ctx, rep, P('tm_algorithms.tm_do_transition'))
     misc.check_tm_loops(ctx, rep, P('tm_algorithms.tm_accepts_word'), P('tm_algorithms.tm_simulate_word'))
+    from .rules import tmcount
+    for nm in ('tm_algorithms.tm_accepts_word', 'tm_algorithms.tm_simulate_word'):
+        tmcount.check_step_count(ctx, rep, ctx.prog.func(nm))
     misc.check_tm_budget(ctx, rep, [P('tm_algorithms.tm_accepts_word'), P('tm_algorithms.tm_simulate_word'), P('tm_algorithms.tm_words_up_to_n')],
                          P('tm_algorithms.tm_words_up_to_n'))
     _effect_on(ctx, rep, ['tm_algorithms.tm_accepts_word', 'tm_algorithms.tm_simulate_word', 'tm_algorithms.tm_words_up_to_n', 'tm_algorithms.tm_do_transition'], shared=False)
